@@ -171,9 +171,35 @@ Fixpoint arun (P : kparams) (X : bytes) (a : astate) (ops : list aop) (emitted :
       end
   end.
 
+(* ---------- driving ZSTD_endStream to completion: call i gets the output capacity [caps i] (round 3) ---------- *)
+Inductive aendres := AEDone (ncalls : nat) | AEErr | AEMore (a : astate).
+Fixpoint aend_run (P : kparams) (fc : fconf) (X : bytes) (a : astate) (caps : nat -> N) (ck : N) (i n : nat) : aendres :=
+  match n with
+  | O => AEMore a
+  | S n' =>
+      let o := a_endStream P fc X a (caps i) ck in
+      match ao_ret o with
+      | None => AEErr
+      | Some r => if r =? 0 then AEDone (S i) else aend_run P fc X (ao_a o) caps ck (S i) n'
+      end
+  end.
+
+(* driving ZSTD_compressStream2(ZSTD_e_end): call i presents all that remains of X and gets capacity [caps i] *)
+Fixpoint acend_run (P : kparams) (fc : fconf) (X : bytes) (a : astate) (caps : nat -> N) (i n : nat) : aendres :=
+  match n with
+  | O => AEMore a
+  | S n' =>
+      let o := a_call P fc X a (lenN X) (caps i) DirEnd in
+      match ao_ret o with
+      | None => AEErr
+      | Some r => if r =? 0 then AEDone (S i) else acend_run P fc X (ao_a o) caps (S i) n'
+      end
+  end.
+
 End Api.
 
 Arguments a_k {CS} a. Arguments a_pos {CS} a. Arguments a_size {CS} a. Arguments a_null {CS} a.
 Arguments ao_a {CS} a. Arguments ao_consumed {CS} a. Arguments ao_out {CS} a. Arguments ao_ret {CS} a. Arguments ao_err {CS} a.
 Arguments wview {CS} k. Arguments wview_applied_only {CS} k. Arguments is_init {CS} k. Arguments keep_caller {CS}.
+Arguments AEDone {CS} ncalls. Arguments AEErr {CS}. Arguments AEMore {CS} a.
 Arguments a_new {CS}. Arguments a_reset {CS}. Arguments a_reset_keeps_held {CS}. Arguments end_ret {CS}.
